@@ -44,7 +44,9 @@ ASSUMPTIONS = [
 ALPHABET = "aC:/\\#.file"
 ALL_EXHAUSTIVE = False
 
-NAME_CHARS = "abXY01 -_.~+&;[]éü"
+# ... including letters that Unicode normalisation would replace (OHM SIGN, ANGSTROM SIGN, a
+# combining accent after its base letter): on this platform a file name is its code points
+NAME_CHARS = "abXY01 -_.~+&;[]éü\u2126\u212b\u0301"
 
 
 # ------------------------------------------------------------------ (b) string functions
@@ -230,6 +232,7 @@ def gen_layout(rng):
     # references may be written percent-encoded (the only way to name a file with a blank in an
     # 'extends' list)
     L["quoted"] = rng.random() < 0.5
+    L["abs_include"] = not L["quoted"] and rng.random() < 0.5
     # the top schema and the base it extends each import "the same" relative name, which in the
     # two directories denotes two different files
     if rng.random() < 0.35:
@@ -287,7 +290,7 @@ def write_layout(root, L, frag=None):
     for d in L["dirs"].values():
         os.makedirs(os.path.join(root, *[p for p in d.split("/") if p]), exist_ok=True)
     f = lambda k: "#frag" if frag == k else ""  # noqa
-    files = _layout_files(L, f)
+    files = _layout_files(L, f, root)
     for k, text in files.items():
         with open(path(k), "w", encoding="utf-8", newline="\n") as fh:
             fh.write(text)
@@ -302,8 +305,14 @@ def qrel(L, a, b):
     return r
 
 
-def _layout_files(L, f):
+def _layout_files(L, f, root=None):
     rel = qrel  # noqa
+
+    def again(frm, to):
+        # the repeated includes are written as ABSOLUTE pathnames in half of the unquoted layouts
+        if root is not None and L.get("abs_include"):
+            return os.path.join(root, *[p for p in (L["dirs"][L[to]["dir"]] + "/" + L[to]["name"]).split("/") if p])
+        return rel(L, frm, to)
     return {
         "base2": '<schema>\n  <key name="b2" default="two"/>\n</schema>\n',
         "base1": '<schema extends=%s>\n%s  <key name="b1" default="one"/>\n</schema>\n'
@@ -326,7 +335,7 @@ def _layout_files(L, f):
                 % (rel(L, "conf", "inc1"), f("include"), rel(L, "conf", "inc3"),
                    # a file may be included any number of times: the same one again, and one that an
                    # included file has included already
-                   rel(L, "conf", "inc3"), rel(L, "conf", "inc4")),
+                   again("conf", "inc3"), again("conf", "inc4")),
     }
 
 
